@@ -8,7 +8,7 @@ HOOK_COMMITS = [l.split()[0] for l in HOOK_COMMITS if " verif:" in " "+l.split("
 # id: (built, level, technique, text, note)
 T = {
  "C01": (True, "exploration", "runtime monitoring: offline checker over the recorded event log (per-stream order, exactly-once of acknowledged ids, sidecar==log) on seeded concurrent stress histories with injected delays at hook points",
-   "Held on N observed concurrent histories (2-16 writer threads, sessions and tasks through the real router, restarts; half of the histories with a scripted hostile provider - framings x faults x mid-body resets at every byte around an event terminator - after a deterministic grid of those) with delay injection inside the seq->append window; a narrowed critical section produces a duplicate seq within one history. Not exhaustive over schedules.",
+   "Held on N observed concurrent histories (2-16 writer threads, sessions and tasks through the real router, restarts; half of the histories with a scripted hostile provider - framings x faults x mid-body resets at every byte around an event terminator - after a deterministic grid of those) with delay injection inside the seq->append window; tasks whose pumps outlive the command while clients re-attach under a delayed history snapshot; a narrowed critical section produces a duplicate seq within one history. Not exhaustive over schedules.",
    "Trusts the harness, serde_json, that hook points only change timing; schedules limited to what OS scheduling + injected delays produce."),
  "C04": (True, "fault_enumeration", "runtime monitoring: differential oracle (answers with caches as found vs caches removed, plus raw-log reference models for replay, cut points, status, cursor/selection status and the checkpoint selection of compile) over an enumeration of cache-fault scripts x query set; termination decided by counting cache.scan hook ticks per query (step budget)",
    "Every (cache file class x fault kind x position) single fault is injected into seeded histories (with further appends and restarts), then random multi-fault scripts on the index files, plus directed threads beyond every tail window (>10^4 frames, >8 MiB sidecar, dense non-message frames, cut points checkpointed repeatedly and out of order); the blame of a faulted plan is verified by a no-fault re-run; each of ~35 queries is compared as-found vs no-cache. Known design gap (stale well-formed sidecars are believed) is listed in known_findings.json by (query, file, fault class, position); everything else must agree.",
@@ -26,22 +26,22 @@ T = {
    "Thousands of branch/handoff calls per run: parent never touched, child opens with created+lineage frames, recorded cut equals the model, invalid selectors rejected with nothing appended, handoff summary resolvable, next child append gets seq 2 (also across restart).",
    "Sequential only; model follows ADR-0009 as read."),
  "C18": (True, "fault_enumeration", "runtime monitoring: holder-set invariant monitor on the real recovery loop under driven rendezvous schedules at auth.* hook points and seeded noise, from every leftover state, plus multi-process rounds of the real rip serve/rip CLI binaries (with injected delays and aborts) observed by liveness + endpoint probes",
-   "18 leftover states (incl. mixed owners: live lock beside dead/foreign/corrupt meta, dead lock beside live meta, a real rip serve stopped between lock and meta) x 15 directed read-then-rename schedules + noise cases in-process (|holders|<=1, lock.json always carries the holder's record, live authority never displaced, dead-authority store usable again), and 2-12 real processes racing per round with kill -9 of the winner; every live holder also on its own store against rip clients (four commands through the client recovery loop) alone and with rip serve contenders, lock byte-identity and inode tracked while the owner lives. Confirmed design-level races are listed as known findings keyed by schedule; live-state and unattributed violations always fail.",
+   "18 leftover states (incl. mixed owners: live lock beside dead/foreign/corrupt meta, dead lock beside live meta, a real rip serve stopped between lock and meta) x 15 directed read-then-rename schedules + noise cases in-process (|holders|<=1, lock.json always carries the holder's record, live authority never displaced, dead-authority store usable again), and 2-12 real processes racing per round with kill -9 of the winner; every live holder also on its own store against rip clients (four commands through the client recovery loop) alone and with rip serve contenders, lock byte-identity and inode tracked while the owner lives. Graceful-shutdown rounds: an incumbent asked to stop (SIGTERM/SIGINT) with requests in flight must keep its lock until it is gone (foreign live pid in lock.json followed by >=3 further frames of the incumbent's own task stream = violation). Planted records carry start times before boot / now / future / nonsense. Confirmed design-level races are listed as known findings keyed by schedule; live-state and unattributed violations always fail.",
    "In-process contenders share one pid; attribution uses hook-trace order; the real binary is built from /repo with the verif feature."),
  "C19": (True, "exploration", "runtime monitoring: black-box canary search on the real binary - a fresh rip serve per configuration next to a scripted provider that proves the secret was sent; every byte of data dir, workspace, HTTP/SSE responses, process output and CLI output is searched for the canary in raw/base64/hex/percent/JSON-escaped forms",
-   "~200 configurations per quick run: 15 ways of supplying the secret (every config layer, env indirection, env overrides, header values, per-request overrides, rip run --provider) x 7 run outcomes (success with tools, tool failure, 401/500 echoing the request, reset, refused, invalid follow-up) with request dumping off/on/capped; doctor output checked for presence+source only.",
-   "Only the listed encodings are searched; tool commands that print the authority's own environment are excluded."),
+   "~200 configurations per quick run: 15 ways of supplying the secret (every config layer, env indirection, env overrides, header values, per-request overrides, rip run --provider) x 7 run outcomes (success with tools, tool failure, 401/500 echoing the request, reset, refused, invalid follow-up) with request dumping off/on/capped; doctor output checked for presence+source only. Key shapes include 7-8 character keys; in doctor answers head+tail of a long value together count as disclosure.",
+   "Only the listed encodings are searched; a way of supplying the secret that does not exist in the unchanged tree is not enumerated (DESIGN.md 8d, C19-r5); tool commands that print the authority's own environment are excluded."),
  "C20": (True, "exploration", "runtime monitoring: invariant assertions after every TuiState::update (catch_unwind, overflow checks on) over generated frame sequences of all 38 frame types with hostile seq/timestamp/text, determinism by double fold and clone-then-suffix, render sweep on TestBackend, and the real rip headless renderers driven by a fake authority",
    "Thousands of frame scripts per run (gaps, repeats, decreasing and extreme seqs, several streams, multi-byte text at every truncation boundary, all capacity settings), millions of lookup probes (returned frame must carry the asked seq), hundreds of thousands of renders incl. every terminal size 1..130 x 1..30, and ~150 real CLI runs compared across chunkings.",
    "Bounds judged are the configured ones (max_frames, max_output_bytes, 8 KiB previews); Miri pass is thorough-tier only and small."),
  "C02": (True, "exploration", "runtime monitoring: byte-prefix monitor on events.jsonl after every call of sequential histories through the real router/store (old bytes must be an exact prefix, suffix whole JSON lines, must-add-nothing classes add zero bytes), with fuzzed parameters, cache faults and restarts; second observer: the real rip serve under strace (thorough tier)",
-   "~27 000 judged calls per quick run over every route and store capability incl. fuzzed read-only parameters, malformed ids/bodies, 4xx rejections, dry-run/noop answers, cache deletion followed by rebuilding reads, restarts; asynchronous writers are awaited before the next call is blamed; strace observer asserts O_APPEND-only opens and no rename/unlink/truncate on the log.",
+   "~27 000 judged calls per quick run over every route and store capability incl. fuzzed read-only parameters, malformed ids/bodies, 4xx rejections, dry-run/noop answers, cache deletion followed by rebuilding reads, restarts; asynchronous writers are awaited before the next call is blamed; compaction and cursor-rotate calls are additionally classified from the raw log alone (nothing to plan / no cursor selected => must add nothing, whatever the call answers) and one cache fault is persistent (cache root replaced by a regular file); strace observer asserts O_APPEND-only opens and no rename/unlink/truncate on the log.",
    "Sequential histories; the byte oracle cannot see a same-bytes same-inode rewrite (only the strace observer can)."),
  "C03": (True, "exploration", "runtime monitoring: (A) table-driven round-trip oracle over all 38 frame variants with unique tokens (wire==read(wire), stream assignment, no token lost at write or read, envelope keys), also through EventLog append/replay and snapshots; (B) live collectors vs log vs sidecar vs snapshot vs replay_events frame-for-frame on concurrent histories",
    "Nesting-depth sweep (every depth 88..132 quick, 2..140 thorough, four entry doors) with the full comparison per depth; ~25 000 generated frames per quick run (optional fields absent/present/null, unicode incl. astral and U+2028, 64 KiB strings, deep and extreme JSON values) and ~3 000 streams compared live==log==sidecar==snapshot==thread SSE replay incl. restarts and verify_snapshot.",
    "Floats restricted to exactly representable values; payload nesting limited to what the system can emit (100 levels)."),
  "C06": (True, "fault_enumeration", "runtime monitoring: driven rendezvous schedules at the emit/stream hook points enumerate every placement of a subscriber's subscribe/snapshot steps against every frame emission of sessions, tasks and threads; received SSE bytes judged against the log (0..n exactly once, in order, JSON-equal); plus stress with 1-32 subscribers under noise and a >16 384-frame burst",
-   "All join orders x all frames k of several producer variants for the three stream kinds (hundreds of driven joins per quick run, all realised), ~5 000 stress subscribers, lag burst; unrealised schedules and undelivered tails are inconclusive, never violations.",
+   "All join orders x all frames k of several producer variants for the three stream kinds (hundreds of driven joins per quick run, all realised), ~5 000 stress subscribers, lag burst; joins after the thread's sidecar was lost (rebuild stretched by a per-line delay, appender started inside it, rebuilding reader and later subscriber judged); unrealised schedules and undelivered tails are inconclusive, never violations.",
    "In-process router (no socket buffering); tokio mutex FIFO order assumed for positions reached under the history lock."),
  "C07": (True, "exploration", "runtime monitoring: offline lifecycle-grammar oracle over the final event log of routed runs against a scripted provider (every provider fault incl. reset at every byte, HTTP errors, malformed/invalid events, missing [DONE]) and tool outcomes, parallel posts, interleaved compaction jobs, seeded hook delays; background jobs through four entry points under injected failures (artifact store unusable before/between cuts, workspace gone, cache damage, bursts, overlapping jobs) judged per job id",
    "4-6 000 runs per quick run in ~65 behaviour classes: exactly one run_spawned per accepted post, exactly one run_ended after the run's own session_ended, decided < compiled < side-effects/cursor < ended, session stream starts at seq 0 and ends with exactly one session_ended, jobs ended at most once; a run without closing frames is a violation only when provably nothing is in flight.",
